@@ -97,7 +97,7 @@ impl WithdrawalsBuilder {
     pub fn get_plutus_witnesses(&self) -> PlutusWitnesses {
         let tag = RedeemerTag::new_reward();
         let mut scripts = PlutusWitnesses::new();
-        for (i, (_, (_, script_wit))) in self.withdrawals.iter().enumerate() {
+        for (i, (_, (_, script_wit))) in self.ledger_ordered().into_iter().enumerate() {
             if let Some(ScriptWitnessType::PlutusScriptWitness(s)) = script_wit {
                 let index = BigNum::from(i);
                 scripts.add(&s.clone_with_redeemer_index_and_tag(&index, &tag));
@@ -177,10 +177,22 @@ impl WithdrawalsBuilder {
 
     pub fn build(&self) -> Withdrawals {
         let map = self
-            .withdrawals
-            .iter()
+            .ledger_ordered()
+            .into_iter()
             .map(|(k, (v, _))| (k.clone(), v.clone()))
             .collect();
         Withdrawals(map)
+    }
+
+    /// The entries in the order in which the ledger reads the withdrawals map: by network, then
+    /// script credentials before key credentials, then by hash bytes.
+    /// Reward redeemer indices refer to this order, so the map is emitted and indexed in it.
+    fn ledger_ordered(&self) -> Vec<(&RewardAddress, &(Coin, Option<ScriptWitnessType>))> {
+        let mut entries: Vec<_> = self.withdrawals.iter().collect();
+        entries.sort_by_key(|(address, _)| {
+            let cred = address.payment_cred();
+            (address.network_id(), !cred.has_script_hash(), cred.to_raw_bytes())
+        });
+        entries
     }
 }
